@@ -34,12 +34,15 @@ PATCHES = {
     "sig-results-params": "@@\nvar f identifier\n@@\n-func f(...) error {\n+func f(...) (res int, err error) {\n   ...\n }\n",
     "call-ellipsis": "@@\nvar x expression\n@@\n-foo(x)\n+foo(x...)\n",
     "var-group": "@@\nvar v identifier\nvar x expression\n@@\n-var v = wrap(x)\n+var (\n+  v = wrap(x)\n+)\n",
+    # the imports edited by two changes of one run (the specs astutil adds carry the position of a neighbour and the length of their path)
+    "import-two-changes": "@@\nvar x expression\n@@\n+import \"example.com/newpkg\"\n\n-foo(x)\n+newpkg.Foo(x)\n\n@@\nvar x expression\n@@\n-import \"os\"\n+import \"example.com/a/much/longer/path/newos\"\n\n-os.Exit(x)\n+newos.Exit(x)\n",
+    "import-three-changes": "@@\nvar x expression\n@@\n+import \"example.com/some/long/path/newpkg\"\n\n-foo(x)\n+newpkg.Foo(x)\n\n@@\nvar x expression\n@@\n+import \"example.com/another/long/path/kept\"\n\n-keep(x)\n+kept.Keep(x)\n\n@@\nvar x expression\n@@\n-import \"os\"\n+import \"example.com/newos\"\n\n-os.Exit(x)\n+newos.Exit(x)\n",
     "two-changes": "@@\nvar x expression\n@@\n-foo(x)\n+bar(x)\n\n@@\nvar y expression\n@@\n-bar(y)\n+baz(y, 1)\n",
     "three-changes": "@@\nvar x expression\n@@\n-keep(x)\n+kept(x)\n\n@@\n@@\n-func target() error {\n+func renamed() error {\n   ...\n }\n\n@@\nvar y expression\n@@\n-foo(y)\n+bar(y)\n",
 }
 
 
-NEED = {"stmt-delete": 4, "lock": 5, "if-err": 6, "import-replace": 7, "two-stmts-away": 0}
+NEED = {"stmt-delete": 4, "lock": 5, "if-err": 6, "import-replace": 7, "two-stmts-away": 0, "import-two-changes": 7, "import-three-changes": 7}
 
 
 def body_site(rng, i, need=None):
@@ -104,7 +107,7 @@ def gen_file(rng, pn=""):
         hdr += "// Package p is documented.\n"
     hdr += "package p" + (" // pkg-trailing" if rng.random() < 0.3 or first_special else "") + "\n"
     parts.append(hdr)
-    if (rng.random() < 0.6 and not first_special) or "import-replace" in pns:
+    if (rng.random() < 0.6 and not first_special) or any(x.startswith("import-") and x != "import-add" for x in pns):
         parts.append("import (\n\t\"fmt\" // fmt-trailing\n\t// about os\n\t\"os\"\n)\n")
     for i in range(n):
         d = ""
